@@ -88,7 +88,7 @@ CHECKS = {
     "C20": (
         "progmc c20",
         "bounded-exhaustive enumeration of (permutation of globals, assignment of globals to files) configurations of base programs, each compiled by the real CLI and executed, differential against the known result",
-        "11 base programs with 4 mutually dependent movable globals (const chain, type diamond, mutual recursion, comptime block depending on later globals, generic + const + type alias, enum with array-length constant, annotated constants whose annotation is a later alias, alias chain + annotated struct constant, distinct type + comptime constant, a chain of constants used as an array length, a chain of constants used as comptime argument and enum discriminant; thorough adds a 5-global base): quick = every permutation x 3 file assignments + every one of the 3^4 assignments to {main.capy, fa.capy, fb.capy} in canonical order; thorough = the full product of all permutations x all assignments. Cross-file references are rewritten to `file.name` with the imports added (import cycles included); every file also defines an unrelated decoy global under the name of each movable global that lives in another file. Acceptance, stdout and exit status must equal the base program's result.",
+        "11 base programs with 4 mutually dependent movable globals (const chain, type diamond, mutual recursion, comptime block depending on later globals, generic + const + type alias, enum with array-length constant, annotated constants whose annotation is a later alias, alias chain + annotated struct constant, distinct type + comptime constant, a chain of constants used as an array length, a chain of constants used as comptime argument and enum discriminant; thorough adds a 5-global base): quick = every permutation x 3 file assignments + every one of the 3^4 assignments to {main.capy, fa.capy, fb.capy} in canonical order; thorough = the full product of all permutations x all assignments for the 4-global bases (the 5-global base: every permutation x 3 assignments + every assignment in canonical order). Cross-file references are rewritten to `file.name` with the imports added (import cycles included); every file also defines an unrelated decoy global under the name of each movable global that lives in another file. Acceptance, stdout and exit status must equal the base program's result.",
         "4-5 movable globals per program (the quantifier allows 12).",
         "§4 C20",
     ),
